@@ -13,7 +13,9 @@ MODEL_NEEDS_IMPL = True   # the wall-clock second the implementation ran in is r
 RULE = ("ck: cookie cases = one Generate (compared byte for byte) + Validate queries: the 37 truncations, an extension, "
         "every byte flipped, tuple permutations (other MAC, MAC length 0/5/7/8, VLANs swapped/shifted), forged cookies "
         "issued dt seconds ago for dt around the lifetime, in the future and across the u32 wrap, lifetimes "
-        "1 s/60 s/1 h/0/negative. tags: random and malformed tag lists. tb: histories of PADI/PADR/PADT/session "
+        "1 s/60 s/1 h/0/negative. sq: histories on ONE CookieManager (Generate / Validate / lifetime changed through an "
+        "in-package seam / clock really advanced 2 s with a 1 s lifetime): the same cookie validated fresh and again "
+        "after expiry, other tuples' cookies in between. tags: random and malformed tag lists. tb: histories of PADI/PADR/PADT/session "
         "packet/dead-peer/restore over 4 hosts (same VLAN other MAC, same MAC other VLAN, outside any group) with "
         "valid, replayed, expired, foreign-tuple, truncated, bit-flipped and missing cookies, session-ids of own, "
         "foreign and unknown sessions, counter positions {1,0xfffe,0xffff,random}, occupied runs across the wrap, "
@@ -58,6 +60,85 @@ def neighbours(t):
 
 def route(case):
     return "int" if case.startswith("tb") else "pkg"
+
+
+S1 = 1000000000
+
+
+def gen_sq(rng, tier):
+    """histories on ONE CookieManager: the same cookie validated while fresh and again after it has expired
+    (lifetime shortened through the in-package seam L, or the clock really advanced with W), with other
+    tuples' cookies validated in between"""
+    T = [A, B, A2, A3, ("020000aa0001", 100, 0), ("020000aa0001", 0, 0)]
+    cases = []
+
+    def v(src, t, mut="id"):
+        return "V/%s/%s/%s" % (src, mut, tup(t))
+
+    for t in T:
+        o = B if t != B else A
+        # fresh, then lifetime cut to 0 / 1 s (cookie is dt seconds old), then restored: verdict follows the lifetime only
+        for dt in (0, 5, 59):
+            src = "f,%d,%s" % (dt, ftup(t))
+            cases.append("sq %s %d %s" % (SECRET, 60 * S1, " ".join([
+                v(src, t), v(src, t), "L/0", v(src, t), v(src, t), "L/%d" % (60 * S1), v(src, t),
+                "L/%d" % (dt * S1), v(src, t), "L/%d" % ((dt + 1) * S1), v(src, t), "L/-1", v(src, t)])))
+        # Generate, validate, interleave another tuple's cookie, expire, replay
+        cases.append("sq %s %d %s" % (SECRET, 60 * S1, " ".join([
+            "G/" + tup(t), "G/" + tup(o), v("g0", t), v("g1", o), v("g0", t), "L/0", v("g0", t), v("g1", o),
+            "L/%d" % (60 * S1), v("g1", o), "L/0", v("g0", t), v("g0", o), v("g1", t), v("g0", t, "x3.1"), v("g0", t, "t35")])))
+    # the clock really advances (1 s lifetime, 2 s wait)
+    nwait = 2 if tier == "quick" else 8
+    for i in range(nwait):
+        t = T[i % len(T)]
+        o = B if t != B else A
+        cases.append("sq %s %d %s" % (SECRET, S1, " ".join([
+            "G/" + tup(t), v("g0", t), v("f,0,%s" % ftup(o), o), v("g0", t), "W/2", v("g0", t), v("f,0,%s" % ftup(o), o),
+            v("g0", t), "G/" + tup(t), v("g1", t), v("g0", t)])))
+    n = 40 if tier == "quick" else 600
+    for _ in range(n):
+        ttl = rng.choice([60, 60, 5, 1])
+        steps, ng = [], 0
+        cur_ttl = ttl
+        for _ in range(rng.randint(4, 14)):
+            r = rng.random()
+            t = rng.choice(T)
+            if r < 0.15:
+                steps.append("G/" + tup(t))
+                ng += 1
+            elif r < 0.35:
+                cur_ttl = rng.choice([0, 1, 5, 60, ttl, -1])
+                steps.append("L/%d" % (cur_ttl * S1))
+            else:
+                if ng and rng.random() < 0.4:
+                    src = "g%d" % rng.randrange(ng)
+                else:
+                    src = "f,%d,%s" % (rng.choice([0, 0, 1, 4, 5, 6, 59, 60, 61, -2]), ftup(rng.choice([t, t, rng.choice(T)])))
+                mut = rng.choice(["id"] * 6 + ["x%d.%d" % (rng.randint(0, 35), 1 << rng.randint(0, 7)), "t%d" % rng.randint(0, 35)])
+                steps.append(v(src, t, mut))
+                if rng.random() < 0.5:       # immediate replay of the same query
+                    steps.append(v(src, t, mut))
+        cases.append("sq %s %d %s" % (SECRET, ttl * S1, " ".join(steps)))
+    return cases
+
+
+def gen_tb_replay(rng, tier):
+    """PADRs replayed after the cookie expired (lifetime cut with L, or clock advanced with W), other hosts in between"""
+    cases = []
+    for t in [A, B, ("020000aa0001", 100, 0), ("020000bb0002", 0, 0)]:
+        o = B if t != B else A
+        head = "tb %s 60 G=0-199 occ=- next=- ; " % SECRET
+        cases.append(head + " ".join([
+            "I/" + tup(t), "R/%s/s,cP:id" % tup(t), "R/%s/s,cP:id" % tup(t), "L/0", "R/%s/s,cP:id" % tup(t),
+            "R/%s/%s" % (tup(o), ck_valid(o)), "R/%s/s,cP:id" % tup(t), "L/60", "R/%s/s,cP:id" % tup(t)]))
+        cases.append(head + " ".join([
+            "R/%s/%s" % (tup(t), ck_valid(t, dt=5)), "L/5", "R/%s/%s" % (tup(t), ck_valid(t, dt=5)), "L/6",
+            "R/%s/%s" % (tup(t), ck_valid(t, dt=5)), "R/%s/%s" % (tup(o), ck_valid(o)), "L/4",
+            "R/%s/%s" % (tup(t), ck_valid(t, dt=5)), "R/%s/%s" % (tup(o), ck_valid(o))]))
+    for t in ([A] if tier == "quick" else [A, B, A2]):
+        cases.append("tb %s 1 G=0-199 occ=- next=- ; " % SECRET + " ".join([
+            "I/" + tup(t), "R/%s/s,cP:id" % tup(t), "W/2", "R/%s/s,cP:id" % tup(t), "I/" + tup(t), "R/%s/s,cP:id" % tup(t)]))
+    return cases
 
 
 def tup(t):
@@ -204,7 +285,9 @@ def gen_tb_one(rng, ttl=60, scale=None):
     for _ in range(rng.randint(3, 16)):
         h = rng.choice(hosts)
         r = rng.random()
-        if r < 0.1:
+        if r < 0.04:
+            ops.append("L/%d" % rng.choice([0, 0, 1, 60, ttl]))
+        elif r < 0.1:
             ops.append("I/" + tup(h))
         elif r < 0.45:
             k = rng.random()
@@ -280,7 +363,7 @@ THOROUGH_FULLSCALE = [
 
 
 def gen_cases(rng, tier, budget):
-    cases = gen_ck(rng, tier) + gen_tags(rng, tier)
+    cases = gen_ck(rng, tier) + gen_sq(rng, tier) + gen_tags(rng, tier) + gen_tb_replay(rng, tier)
     n = (budget or 700) if tier == "quick" else (budget or 12000)
     for _ in range(n):
         cases.append(gen_tb_one(rng, ttl=rng.choice([60, 60, 60, 5])))
@@ -308,6 +391,8 @@ def nontrivial(case, out):
         return "r=" in out and "1" in out.split("r=")[1] and "0" in out.split("r=")[1]
     if case.startswith("tags"):
         return out.startswith("ok")
+    if case.startswith("sq"):
+        return " 1" in out and " 0" in out
     return "pads:" in out and ("reach:" in out or "term:" in out) and "none" in out
 
 
@@ -323,6 +408,16 @@ def classify(case, impl, model):
             return "P", "Validate verdict differs on queries %s: impl %s model %s" % (
                 [qs[i] for i in k[:3]], [ir[i] for i in k[:3]], [mr[i] for i in k[:3]])
         return "G", "cookie harness output unusable: impl=%r model=%r" % (impl[:80], model[:80])
+    if case.startswith("sq"):
+        st = case.split()[3:]
+        io, mo = impl.split()[1:], model.split()[1:]
+        for i, (x, y) in enumerate(zip(io, mo)):
+            if x != y:
+                if x == "1" and y == "0":
+                    return "P", ("step #%d %s: Validate accepts a cookie the model rejects at that point of the history "
+                                 "(verdict must depend on secret, lifetime, clock, cookie, tuple only)" % (i, st[i]))
+                return "P", "step #%d %s: implementation %s, model %s" % (i, st[i] if i < len(st) else "?", x[:80], y[:80])
+        return "G", "cookie history output unusable: impl=%r model=%r" % (impl[:80], model[:80])
     if case.startswith("tags"):
         return "P", "ParseTags differs: impl=%r model=%r" % (impl[:120], model[:120])
     io, idump = split_tb(impl)
@@ -371,6 +466,12 @@ def shrink(case):
             for i in range(len(qs)):
                 yield " ".join(head + qs[:i] + qs[i + 1:])
         return
+    if t[0] == "sq":
+        head, st = t[:3], t[3:]
+        for i in range(len(st)):
+            if not st[i].startswith("G/"):      # g<i> references stay valid
+                yield " ".join(head + st[:i] + st[i + 1:])
+        return
     if t[0] == "tags":
         p = "" if t[1] == "-" else t[1]
         for i in range(0, len(p), 2):
@@ -407,6 +508,10 @@ def distribution(cases, impl):
                 r = o.split("r=")[1]
                 d["ck_queries"] += len(r)
                 d["ck_accepted"] += r.count("1")
+        elif c.startswith("sq"):
+            d["sq_cases"] = d.get("sq_cases", 0) + 1
+            d["sq_validations"] = d.get("sq_validations", 0) + o.split().count("1") + o.split().count("0")
+            d["sq_real_wait"] = d.get("sq_real_wait", 0) + (" W/" in c)
         elif c.startswith("tags"):
             d["tags"] += 1
             d["tags_ok"] += o.startswith("ok")
